@@ -9,7 +9,8 @@ ID = 'C18'
 LEVEL = 'exploration'
 RULE = ('pair cases: all ordered pairs of a Size grid (5 units x 7 magnitudes) and of all 24 '
         'Alignments, plus random Point/Stretch/Padding/Layout pairs where b is a fresh equal copy of a, '
-        'a copy with exactly one leaf changed, or independent; string cases: every string of the '
+        'a copy with exactly one leaf changed, or independent; cross-class pairs (Point / Stretch of the same '
+        'sizes etc.: symmetry, negation, equal => same hash); string cases: every string of the '
         'stated length over the alphabet 0159.+-eEpxm%ct<space> sharing a 2-char prefix (one case per '
         'prefix; strings are counted in monitor_counters.strings_checked); print / shorthand / '
         'receiver-immutability cases are random. Non-trivial: pair cases whose two values differ in '
@@ -31,7 +32,7 @@ ANCHORS = [
 ]
 REQUIRE = {'pairs_equal': 20, 'pairs_one_leaf_apart': 20, 'strings_checked': 1000,
            'strings_accepted': 5, 'receiver_checks_after_raise': 3,
-           'layout_pairs_differing_only_in_webvtt_positioning': 10}
+           'layout_pairs_differing_only_in_webvtt_positioning': 10, 'cross_class_pairs_checked': 200}
 EXHAUSTIVE = {'quick': False, 'thorough': False}
 ASSUMPTIONS = ['magnitudes are non-negative finite floats',
                'string alphabet is the one named in the property (no newline, ASCII digits only)']
@@ -212,6 +213,14 @@ def cases(ctx):
         if cls == 'Layout' and rng.random() < 0.3:
             case['webvtt'] = [rng.choice([None, 'align:left', 'line:10%']), rng.choice([None, 'align:left', 'size:50%'])]
         yield case
+    # values of two different classes built from the same numbers (Point / Stretch, Size / Point, ...)
+    for _ in range(ctx.budget(1500, 50000)):
+        ca, cb = rng.sample(['Size', 'Point', 'Stretch', 'Padding', 'Alignment', 'Layout'], 2)
+        if rng.random() < 0.6:
+            ca, cb = rng.sample(['Point', 'Stretch'], 2)
+        a = _rand(ca, rng)
+        yield {'kind': 'xpair', 'cls_a': ca, 'a': a, 'cls_b': cb,
+               'b': a if {ca, cb} == {'Point', 'Stretch'} and rng.random() < 0.7 else _rand(cb, rng)}
     # strings
     length = 4 if ctx.tier == 'quick' else 6
     for p in itertools.product(ALPHABET, repeat=2):
@@ -281,7 +290,7 @@ def nontrivial(case):
         return round(case['value'] * 100) != case['value'] * 100
     if k == 'padshort':
         return len(case['tokens']) >= 2
-    if k == 'twod':
+    if k in ('twod', 'xpair'):
         return True
     if k == 'immut':
         return '%' not in str(case['spec']) or case['op'] == 'fit_to_screen'
@@ -346,6 +355,28 @@ def check(case, ctx):
             d = {a: 1}
             if d.get(b) != 1:
                 fails.append({'what': 'dict lookup with an equal value misses'})
+        return fails
+    if k == 'xpair':
+        # whatever two values of different classes answer to ==, the value laws hold: == is symmetric, != its
+        # negation, and values that compare equal hash alike
+        a, b = build(case['cls_a'], case['a']), build(case['cls_b'], case['b'])
+        ctx.count('cross_class_pairs_checked')
+        try:
+            ab, ba, ne = bool(a == b), bool(b == a), bool(a != b)
+            none_eq = bool(a == None) or bool(None == a)        # noqa: E711
+        except Exception as e:
+            return [{'what': 'comparing values of two geometry classes raised', 'error': repr(e)[:300]}]
+        if ab != ba:
+            fails.append({'what': 'equality between two geometry classes is not symmetric', 'a==b': ab, 'b==a': ba})
+        if ne == ab:
+            fails.append({'what': '!= is not the negation of ==', 'a==b': ab})
+        if none_eq:
+            fails.append({'what': 'a geometry value compares equal to None'})
+        if ab or ba:
+            ctx.count('cross_class_pairs_equal')
+            if hash(a) != hash(b):
+                fails.append({'what': 'values that compare equal have different hashes',
+                              'classes': [case['cls_a'], case['cls_b']]})
         return fails
     if k in ('strings', 'string'):
         if k == 'string':
